@@ -43,6 +43,9 @@ def _retype(T, dtype):
 
 
 def gen_case(rng, tier, index):
+    if index % 9 == 8:         # the Python-only half of the property (lane P)
+        from checks import pstreams
+        return pstreams.gen_p(rng, tier, PROPERTY)
     stream = ["same", "same", "promote", "different", "simplify", "astype"][index % 6]
     cfg = gen.Cfg(tier, categorical=False, unions=(stream in ("different", "simplify")), strings=True)
     cfg.dtypes = ["bool"] + gen.INT_DTYPES + gen.FLOAT_DTYPES + gen.COMPLEX_DTYPES + ["datetime64[s]"]
@@ -139,6 +142,9 @@ def _cast(v, T, name):
 
 
 def run_case(ctx, case):
+    if case.get("lane") == "P":
+        from checks import pstreams
+        return pstreams.run_p(ctx, case)
     b = ctx.lib
     d = case["layout"]
     op = case["op"]
